@@ -36,7 +36,7 @@ pub mod x {
 
 /// One injected child status report: (pid, kind, value);
 /// kind: 0 exited(value = code), 1 signaled(value = signal), 2 stopped(value = signal),
-/// 3 continued.
+/// 3 continued, 9 barrier (ends one non-blocking drain; skipped by a wait).
 pub type Report = (i32, i32, i32);
 
 #[derive(Default)]
@@ -106,6 +106,10 @@ fn to_ws(r: Report) -> crate::types::WaitStatus {
 pub fn next_wait(_wpid: i32, block: bool) -> Option<crate::types::WaitStatus> {
     let mut g = FAKE.lock().unwrap();
     let k = g.as_mut()?;
+    // a barrier (kind 9) only delimits what one drain may take; a wait just skips it
+    while k.queue.front().map(|r| r.1 == 9).unwrap_or(false) {
+        k.queue.pop_front();
+    }
     match k.queue.pop_front() {
         Some(r) => {
             k.consumed += 1;
@@ -129,6 +133,7 @@ pub fn drain_fake_sigchld() {
             let mut g = FAKE.lock().unwrap();
             match g.as_mut() {
                 Some(k) => match k.queue.pop_front() {
+                    Some(r) if r.1 == 9 => None, // barrier: this drain ends here
                     Some(r) => {
                         k.consumed += 1;
                         Some(r)
